@@ -91,6 +91,43 @@ CASES = [
          informational=True),
     dict(id="benign-error-status-gt-zero-unsigned", kind="benign", props=["C08"], informational=True,
          edits=[(PDU, "        if error_status.value:", "        if error_status.value != 0:")]),
+    dict(id="benign-apply-auth-rename-inline", kind="benign", props=["C05", "C10", "C11"],
+         edits=[(USM, "        without_digest = reset_digest(unauthed_message)\n        auth_result = auth_method.authenticate_outgoing_message(\n            credentials.auth.key,\n            bytes(without_digest),",
+                 "        zeroed = bytes(reset_digest(unauthed_message))\n        auth_result = auth_method.authenticate_outgoing_message(\n            credentials.auth.key,\n            zeroed,")]),
+    dict(id="benign-verify-auth-early-names", kind="benign", props=["C09", "C06", "C10"],
+         edits=[(USM, "    auth_method = auth.create(credentials.auth.method)\n    without_digest = reset_digest(message)\n    is_authentic = auth_method.authenticate_incoming_message(\n        credentials.auth.key,\n        bytes(without_digest),",
+                 "    without_digest = reset_digest(message)\n    checker = auth.create(credentials.auth.method)\n    is_authentic = checker.authenticate_incoming_message(\n        credentials.auth.key,\n        bytes(without_digest),")]),
+    dict(id="benign-v3-encode-reorder", kind="benign", props=["C05", "C10", "C12", "C14"],
+         edits=[(V3, "        scoped_pdu = ScopedPDU(\n            OctetString(engine_id), OctetString(context_name), pdu\n        )\n        flags = V3Flags(\n            auth=credentials.auth is not None,\n            priv=credentials.priv is not None,\n            reportable=is_confirmed(pdu),\n        )\n",
+                 "        flags = V3Flags(\n            auth=credentials.auth is not None,\n            priv=credentials.priv is not None,\n            reportable=is_confirmed(pdu),\n        )\n        scoped_pdu = ScopedPDU(\n            OctetString(engine_id), OctetString(context_name), pdu\n        )\n")]),
+    dict(id="benign-digest-inline", kind="benign", props=["C09", "C10"],
+         edits=[(HB, "    auth_key = hasher(auth_key, engine_id)\n    mac = hmac.new(auth_key, encoded_message, digestmod=method)\n    return mac.digest()[:12]",
+                 "    localised = hasher(auth_key, engine_id)\n    return hmac.new(localised, encoded_message, digestmod=method).digest()[:12]")]),
+    dict(id="benign-tablify-if-not-in", kind="benign", props=["C16"],
+         edits=[(UTIL, "        row = rows.setdefault(row_id, tmp)\n        row[str(col_id)] = value",
+                 "        if row_id not in rows:\n            rows[row_id] = tmp\n        rows[row_id][str(col_id)] = value")]),
+    dict(id="benign-configure-local", kind="benign", props=["C18", "C05"],
+         edits=[(RAW, "        if \"credentials\" in kwargs and type(self.config.credentials) != type(\n            kwargs[\"credentials\"]\n        ):",
+                 "        new_creds = kwargs.get(\"credentials\")\n        if \"credentials\" in kwargs and type(self.config.credentials) != type(new_creds):")]),
+    dict(id="benign-multiset-loop", kind="benign", props=["C04", "C05", "C07"],
+         edits=[(RAW, "        binds = [VarBind(oid, value) for oid, value in mappings.items()]\n",
+                 "        binds = []\n        for key in mappings:\n            binds.append(VarBind(key, mappings[key]))\n")]),
+    dict(id="benign-bulkget-plain-dict", kind="benign", props=["C02", "C04", "C15"],
+         edits=[(RAW, "        repeating_out = OrderedDict()  # type: Dict[ObjectIdentifier, Type[Any]]", "        repeating_out = {}  # type: Dict[ObjectIdentifier, Type[Any]]")]),
+    dict(id="benign-getnext-len-zero", kind="benign", props=["C04"],
+         edits=[(RAW, "        result = await self.multigetnext([oid])\n        if not result:", "        result = await self.multigetnext([oid])\n        if len(result) == 0:")]),
+    dict(id="benign-counter-modulo", kind="benign", props=["C17", "C06"],
+         edits=[(TYPES, "            value &= 0xFFFFFFFF if value >= 2**32 else value\n            if value <= 0:\n                value = 0\n        super().__init__(value)\n\n\nclass Gauge",
+                 "            value = value % 2**32 if value > 0 else 0\n        super().__init__(value)\n\n\nclass Gauge")]),
+    dict(id="benign-send-local-config", kind="benign", props=["C05", "C07", "C13", "C14", "C18"],
+         edits=[(RAW, "        raw_response = await self.sender(\n            self.endpoint,\n            bytes(packet),\n            timeout=self.config.timeout,\n            retries=self.config.retries,\n        )",
+                 "        cfg = self.config\n        raw_response = await self.sender(\n            self.endpoint,\n            bytes(packet),\n            timeout=cfg.timeout,\n            retries=cfg.retries,\n        )")]),
+    dict(id="benign-walk-stalled-loop", kind="benign", props=["C01", "C02", "C03"],
+         edits=[(RAW, "        stalled = [\n            (continued_from[root], row.value.oid)\n            for root, row in unfinished_oids\n            if root in continued_from\n            and not continued_from[root] < row.value.oid\n        ]",
+                 "        stalled = []\n        for root, row in unfinished_oids:\n            asked = continued_from.get(root)\n            if asked is not None and not asked < row.value.oid:\n                stalled.append((asked, row.value.oid))")]),
+    dict(id="benign-multigetnext-enumerate", kind="benign", props=["C01", "C03", "C04"],
+         edits=[(RAW, "        for requested, retrieved in zip(oids, output):\n            if not requested < retrieved.oid:",
+                 "        for position, retrieved in enumerate(output):\n            requested = oids[position]\n            if not requested < retrieved.oid:")]),
     # ------------------------------------------------------------------ breaking (Appendix B; not already among seeded/)
     dict(id="break-group-stride", kind="breaking", props=["C01", "C02"],
          edits=[(UTIL, "varbinds[i::n]", "varbinds[i :: n + 1]")]),
